@@ -9,13 +9,13 @@ CONSTANTS
   MixedTerm = FALSE
   Finding1 = FALSE
   Finding2 = TRUE
-  Finding3 = TRUE
-  Finding4 = TRUE
+  Finding3 = FALSE
+  Finding4 = FALSE
 INVARIANT TypeOK
 INVARIANT NothingBeforeTheEnd
 INVARIANT RejectedStoresNothing
 INVARIANT ItemsEqualStored
 INVARIANT StoredOnceInOrder
-INVARIANT ImplMeetsProperty
+INVARIANT ImplMeetsPropertyStrict
 INVARIANT Emit
 PROPERTY StoreOnlyAtFinish
